@@ -3,7 +3,7 @@ corpus scripts + generated exact-mode and burst-mode scripts on two real chmux e
 piped through the `link` model driver."""
 import glob, hashlib, os, re
 
-PRED = {"C01": "c01", "C02": "c02", "C03": "c03"}
+PRED = {"C01": "c01", "C02": "c02", "C03": "c03", "C11": "c11"}
 
 
 def run_link(ctx, replay=None, corpus_dirs=("C01", "C03")):
@@ -24,10 +24,15 @@ def run_link(ctx, replay=None, corpus_dirs=("C01", "C03")):
         # split into several processes' worth of seeds
         parts = 4 if quick else 16
         for i in range(parts):
+            if prop == "C11":
+                jobs.append(("close%d" % i, ["gen", "link-close", (n_exact + n_burst) // parts], ctx.seed * 1000 + 600 + i))
+                continue
             jobs.append(("exact%d" % i, ["gen", "link-exact", n_exact // parts], ctx.seed * 1000 + i))
             jobs.append(("burst%d" % i, ["gen", "link-burst", n_burst // parts], ctx.seed * 1000 + 500 + i))
+            if i == 0:
+                jobs.append(("close%d" % i, ["gen", "link-close", (n_exact // parts) // 2], ctx.seed * 1000 + 600 + i))
     total_traces, nontrivial, hashes, samples = 0, 0, set(), []
-    stats = {"replay_ok": 0, "replay_mismatch": 0, "pred_fail": 0, "multi_frame_msgs": 0, "cancels": 0, "chunk_streams": 0,
+    stats = {"closes": 0, "receiver_drops": 0, "sender_drops": 0, "closed_send_errors": 0, "eos_seen": 0, "replay_ok": 0, "replay_mismatch": 0, "pred_fail": 0, "multi_frame_msgs": 0, "cancels": 0, "chunk_streams": 0,
              "port_batches": 0, "trysends": 0, "credit_frames": 0}
     mismatches, fails = [], []
     for name, args, seed in jobs:
@@ -65,22 +70,28 @@ def run_link(ctx, replay=None, corpus_dirs=("C01", "C03")):
                 stats["multi_frame_msgs"] += 1
             if canc:
                 stats["cancels"] += 1
+            stats["closes"] += sum(1 for l in tl if l.startswith("op close"))
+            stats["receiver_drops"] += sum(1 for l in tl if re.match(r"op drop \w \w+ rx", l))
+            stats["sender_drops"] += sum(1 for l in tl if re.match(r"op drop \w \w+ tx", l))
+            stats["closed_send_errors"] += sum(1 for l in tl if re.match(r"ret s\d+ err closed", l))
+            stats["eos_seen"] += sum(1 for l in tl if re.match(r"ret r\d+\.0 none", l))
+            closeish = any(l.startswith(("op close", "op drop")) for l in tl)
             stats["chunk_streams"] += sum(1 for l in tl if l.startswith("op chunks"))
             stats["port_batches"] += sum(1 for l in tl if l.startswith("op pconnect"))
             stats["trysends"] += sum(1 for l in tl if l.startswith("op trysend"))
             stats["credit_frames"] += sum(1 for l in tl if l.startswith("tx ") and len(l.split()) > 2 and l.split()[2].startswith("09"))
-            if h not in hashes and (multi or canc):
+            if h not in hashes and (multi or canc or (prop == "C11" and closeish)):
                 hashes.add(h)
                 nontrivial += 1
                 if len(samples) < 3 and name != "corpus":
                     samples.append({"trace": tname, "script": [l.strip()[3:] for l in tl if l.startswith("op ")][:40]})
         for line in lines:
             if line.startswith("END "):
-                m = re.match(r"END (\S+) events=(\d+) replay=(\w+) c01=(\w+) c02=(\w+) c03=(\w+)", line)
+                m = re.match(r"END (\S+) events=(\d+) replay=(\w+) c01=(\w+) c02=(\w+) c03=(\w+) c11=(\w+)", line)
                 if not m:
                     continue
                 tname, replay_res = m.group(1), m.group(3)
-                res = {"c01": m.group(4), "c02": m.group(5), "c03": m.group(6)}
+                res = {"c01": m.group(4), "c02": m.group(5), "c03": m.group(6), "c11": m.group(7)}
                 stats["replay_ok" if replay_res == "ok" else "replay_mismatch"] += 1
                 detail = [l for l in lines if l.startswith(("DIFF %s " % tname, "FAIL %s " % tname))]
                 if res[pred] != "ok":
